@@ -65,7 +65,7 @@ Theorem C16_exactly_once_refuted :
   honest witness = true /\
   e_sub (s_b s) = [200] /\ e_del (s_a s) = [] /\ e_acked (s_b s) = [0%nat] /\
   c_q (e_ch (s_b s)) = [] /\ e_dead (s_b s) = 0%nat.
-Proof. exact defective_loses_message. Qed.
+Proof. exact pre_96f9f16_rule_loses_message. Qed.
 Print Assumptions C16_exactly_once_refuted.
 
 (* the same execution under the repaired rule delivers both messages *)
